@@ -414,6 +414,7 @@ def register_pytree_node(
         namespace = ''
     else:
         registration_key = (namespace, cls)
+    hash(registration_key)  # fail for an unhashable class before the C++ registry is modified
 
     with __REGISTRY_LOCK:
         _C.register_node(
@@ -614,6 +615,7 @@ def unregister_pytree_node(cls: type, /, *, namespace: str) -> PyTreeNodeRegistr
         namespace = ''
     else:
         registration_key = (namespace, cls)
+    hash(registration_key)  # fail for an unhashable class before the C++ registry is modified
 
     with __REGISTRY_LOCK:
         _C.unregister_node(cls, namespace)
